@@ -22,3 +22,19 @@ package lsp
 //@   loop 1 step [strictly-increasing-position] poslt(old(p.Line), old(p.Character), p.Line, p.Character)
 //@   loop 1 step [utf16-units] p.Line == old(p.Line) ==> p.Character == old(p.Character) + (r <= 65535 ? 1 : 2)
 //@   loop 1 step [line-break] p.Line != old(p.Line) ==> p.Line == old(p.Line) + 1 && p.Character == 0 && (r == '\r' || r == '\n')
+//   which characters end a line: LF always; CR unless it is the CR of a CRLF pair
+//@   loop 1 step [lf-breaks] r == '\n' ==> p.Line == old(p.Line) + 1
+//@   loop 1 step [lone-cr-breaks] r == '\r' && !(i + 1 < len(s) && s[i+1] == '\n') ==> p.Line == old(p.Line) + 1
+//@   loop 1 step [crlf-is-one-break] r == '\r' && i + 1 < len(s) && s[i+1] == '\n' ==> p.Line == old(p.Line)
+//@   loop 1 step [other-chars-stay] r != '\r' && r != '\n' ==> p.Line == old(p.Line)
+
+// lspPositionFromIdx is a pure function of (s, idx); callers are specified in terms of it.
+//@ func lspPositionFromIdx
+//@   pure
+//@   functional
+
+//@ func lspRangeFromRange
+//@   props C44
+//@   pure
+//@   ensures result.Start === lspPositionFromIdx(s, diag.Ranger.Range(r).From)
+//@   ensures result.End === lspPositionFromIdx(s, diag.Ranger.Range(r).To)
